@@ -134,9 +134,33 @@ def warm_start_clause(res, r, tier):
         total = float(prob['N'])
         warm = estgen.make_engine(prob['dom'], {}, iters=400, warm_start=True)
         cold = estgen.make_engine(prob['dom'], {}, iters=400, warm_start=False)
+        kept, bad = [], None
         with contextlib.redirect_stdout(io.StringIO()), np.errstate(all='ignore'):
-            for k in range(1, len(prob['meas']) + 1):
-                mw = warm.estimate(estgen.to_measurements(prob['meas'][:k]), total=total, options={})
+            # grown lists, then the full list again with fresh noisy answers (same structure, new data) and a changed total;
+            # every model handed back is kept by the caller and re-queried after each later call
+            steps = [(prob['meas'][:k], total) for k in range(1, len(prob['meas']) + 1)]
+            again = [dict(m, y=m['y'] + np.array([r.gauss(0, m['noise']) for _ in range(len(m['y']))])) for m in prob['meas']]
+            steps += [(again, total), (prob['meas'], total * 1.5), (prob['meas'], total)]
+            eng_cycle = ['MD', 'MD', 'IG', 'RDA']
+            for si, (ms, tt) in enumerate(steps):
+                engine = 'MD' if si < len(prob['meas']) or si == len(steps) - 1 else r.choice(eng_cycle)
+                mw = warm.estimate(estgen.to_measurements(ms), total=tt, engine=engine, options={})
+                for j, (old, snap) in enumerate(kept):
+                    if old is mw:
+                        bad = f'warm start: call {si + 1} returned the very object handed back by call {j + 1}'
+                    elif snap_model(old) != snap:
+                        bad = f'warm start: the model returned by call {j + 1} changed its answers after call {si + 1}'
+                    elif any(np.shares_memory(a, b) for a in arrays_of(old) for b in arrays_of(mw)):
+                        bad = f'warm start: the model returned by call {si + 1} shares memory with the one returned by call {j + 1}'
+                    if bad:
+                        break
+                if bad:
+                    break
+                kept.append((mw, snap_model(mw)))
+            if bad:
+                res.case({'warm-start': estgen.canon_problem(prob)}, True)
+                res.violation('failing-input', bad, {'request': estgen.canon_problem(prob), 'expected': bad}, key='history:warm-' + bad.split(':')[1][:24].strip().replace(' ', '-'))
+                continue
             mc = cold.estimate(estgen.to_measurements(prob['meas']), total=total, options={})
             lw = warm._marginal_loss(mw.belief_propagation(mw.potentials))[0]
             lc = cold._marginal_loss(mc.belief_propagation(mc.potentials))[0]
